@@ -2192,8 +2192,8 @@ def artifact_part(out, pid, tier, progs, what, need_bt=True):
         prog = byid[m["p"]]
         out.violations.append({
             "key": "indexmap prog=%s" % prog.body().replace("\n", " ").replace("  ", " "),
-            "desc": "state renumbering of program %d is inconsistent (injective %s, patterns %s, switch arms %s, inlining %s)" % (
-                m["p"], m["inj"], m["pat"], m["sw"], m["inl"]),
+            "desc": "state renumbering of program %d is inconsistent (injective %s, patterns %s, switch arms %s, inlining %s, simplify as specified %s, renumber as specified %s)" % (
+                m["p"], m["inj"], m["pat"], m["sw"], m["inl"], m.get("simp"), m.get("ren")),
             "payload": {"kind": "artifact", "program": prog.to_json(), "src": prog.body(), "indexmap": m}})
     cov = out.coverage
     cov["automata_compared_with_reference"] = len(pairs)
